@@ -809,6 +809,18 @@ def gen_rule_zone_session(rng, r, with_table=False, do_find=True, do_findn=False
         yield {"op": "lookup", "a": {"u": W(u), "via": "ref"}}
         if do_find and MINT + 4 * 10**5 < u < MAXT - 4 * 10**5:
             yield search(u + rng.choice(offs) + rng.choice([-1, 0, 0, 1]))
+    if rng.random() < 0.3:
+        # the edges of the year guard, to the second: the guard is on the UTC year of the instant, so the first and last |offset|
+        # seconds of the guarded range must still be answered
+        lo = days_from_civil(I32MIN + 2, 1, 1) * DAY
+        hi = days_from_civil(I32MAX - 1, 1, 1) * DAY
+        ds = sorted({0, 1, 2, 3600, 86399} | {abs(o) + d for o in offs for d in (-1, 0, 1) if abs(o) + d >= 0})
+        for d in ds:
+            yield {"op": "lookup", "a": {"u": W(lo + d), "via": "ref"}}
+            yield {"op": "lookup", "a": {"u": W(hi - 1 - d), "via": "ref"}}
+        for d in (1, 2, 3600):
+            yield {"op": "lookup", "a": {"u": W(lo - d), "via": "ref"}}
+            yield {"op": "lookup", "a": {"u": W(hi - 1 + d), "via": "ref"}}
     if do_find and rng.random() < 0.5:
         # the year guard of the rule evaluator: searches must succeed in i32::MIN+2 .. i32::MAX-2 (and may be refused outside)
         for yy in (I32MIN + 1, I32MIN + 2, I32MIN + 3, I32MAX - 3, I32MAX - 2, I32MAX - 1):
